@@ -67,21 +67,21 @@ func (m *module) done(data starlark.StringDict, err error) (starlark.StringDict,
 // wait waits for the receiver to finish loading. It returns an error if the module fails
 // to load or if the wait would result in a cyclic dependency.
 func (m *module) wait(waiter *module) (starlark.StringDict, error) {
-	verifPoint("module.wait.lock", m)
-	m.m.Lock()
-	defer m.m.Unlock()
-	verifPoint("module.wait.locked", m)
-
 	if waiter != nil {
-		loading := m.loading
+		loading := m.getLoading()
 		for loading != nil {
 			if loading == waiter {
 				verifPoint("module.wait.cyclic", m)
 				return nil, fmt.Errorf("cyclic dependency on %v", m.label)
 			}
-			loading = m.getLoading()
+			loading = loading.getLoading()
 		}
 	}
+
+	verifPoint("module.wait.lock", m)
+	m.m.Lock()
+	defer m.m.Unlock()
+	verifPoint("module.wait.locked", m)
 
 	for !m.loaded {
 		verifPoint("module.wait.block", m)
